@@ -68,7 +68,7 @@ func inScale(k theory.Key, n theory.Note) (int, bool) {
 }
 
 func checkC03(c *core.Ctx) {
-	c.Rule("exhaustive: 28 keys x 21 root spellings x (no bass + 21 bass spellings) = 12,936 single chords through `text conv syllable --key K` (thorough: again with {key=K} on the chord, and with a symbol); " +
+	c.Rule("exhaustive: 28 keys x 21 root spellings x (no bass + 21 bass spellings) = 12,936 single chords through `text conv syllable --key K` (thorough: again with {key=K} on the chord, with a symbol, and with the key set by a preceding rest or chord; quick samples those); " +
 		"success => degree number = letter distance + 1 and size = pitch distance (same for the bass, measured from the root); scale notes must be accepted; " +
 		"non-trivial = accepted chord in a key other than C; distinct by (key, root, bass, variant)")
 	c.Assume("theory.Size, letter arithmetic of letterInterval", "theory.ParseNotation reads crd's degree notation", "yaml.v3 as reader")
@@ -77,14 +77,22 @@ func checkC03(c *core.Ctx) {
 	sp := theory.AllSpellings()
 	variants := 1
 	if !c.Quick() {
-		variants = 3
+		variants = 5
 	}
 	per := len(sp) * (len(sp) + 1)
 	total := len(keys) * per
 	c.Extra("swept_space", total*variants)
-	c.Stream("sweep", total*variants, func(i int, _ *rand.Rand) {
+	nCases := total * variants
+	if c.Quick() {
+		nCases = total + 1200 // the full --key sweep plus a seeded sample of the carried-key variants
+	}
+	c.Stream("sweep", nCases, func(i int, rr *rand.Rand) {
 		variant := i / total
 		j := i % total
+		if c.Quick() && i >= total {
+			variant = 3 + rr.Intn(2)
+			j = rr.Intn(total)
+		}
 		k := keys[j/per]
 		root := sp[(j%per)/(len(sp)+1)]
 		bi := (j % per) % (len(sp) + 1)
@@ -104,6 +112,18 @@ func checkC03(c *core.Ctx) {
 		if variant == 1 {
 			text += "{key=" + k.String() + "}"
 			args = []string{"text", "conv", "syllable"}
+		}
+		// the key in force was set earlier: on a preceding rest (3) or on a preceding chord (4)
+		lead := 0
+		if variant == 3 {
+			text = "R[1]{key=" + k.String() + "} " + text
+			args = []string{"text", "conv", "syllable", "--key", keys[(j/per+5)%len(keys)].String()}
+			lead = 1
+		}
+		if variant == 4 {
+			text = k.Tonic.String() + "[1]{key=" + k.String() + "} R[2] " + text
+			args = []string{"text", "conv", "syllable"}
+			lead = 2
 		}
 		r := run(c, []byte(text), args...)
 		c.Eval(1)
@@ -129,11 +149,11 @@ func checkC03(c *core.Ctx) {
 			return
 		}
 		inst, err := parseConvOutput(r.Stdout)
-		if err != nil || len(inst) != 1 {
-			c.Violate("sweep", i, sig+":output", fmt.Sprintf("key %s: %q: output is not one instance", k, text), obs(r))
+		if err != nil || len(inst) != 1+lead {
+			c.Violate("sweep", i, sig+":output", fmt.Sprintf("key %s: %q: output is not %d instance(s)", k, text, 1+lead), obs(r))
 			return
 		}
-		ch, ok := chordOf(inst[0])
+		ch, ok := chordOf(inst[lead])
 		if !ok {
 			c.Violate("sweep", i, sig+":nochord", fmt.Sprintf("key %s: %q: no chord in the output", k, text), obs(r))
 			return
